@@ -92,9 +92,21 @@ func (e *Exec) setResult(f *Frame, result ssa.Value, v Val) {
 
 // bindCallResult: `bind call Callee: a, b` names the results of the first call site of Callee in the root function.
 func (e *Exec) bindCallResult(cc *callCtx, v Val) {
-	if cc.f != e.rootFrame || e.rootCtr == nil || len(e.rootCtr.BindCalls) == 0 {
+	if cc.f != e.rootFrame || e.rootCtr == nil || (len(e.rootCtr.BindCalls) == 0 && len(e.rootCtr.SnapCalls) == 0) {
 		return
 	}
+	defer func() {
+		// snapshots: expressions over the state right after the call
+		for _, n := range cc.names {
+			for _, sp := range e.rootCtr.SnapCalls[n] {
+				sv, err := e.eval(e.rootEnv(cc.f, cc.st), sp.Expr)
+				if err != nil {
+					panic(fmt.Sprintf("fatal: contract of %s: snap %s = %s: %v", e.rootCtr.Name, sp.Name, sp.Text, err))
+				}
+				e.rootBinders[sp.Name] = sv
+			}
+		}
+	}()
 	for _, n := range cc.names {
 		names, ok := e.rootCtr.BindCalls[n]
 		if !ok {
@@ -760,6 +772,7 @@ func (e *Exec) callByContract(cc *callCtx, fn *ssa.Function, ctr *FuncContract, 
 		}
 	}
 	e.applyHavoc(cc.st, ms)
+	e.applyKeeps(cc, ctr, pre)
 	res := e.havocVal(cc.resT, f.prefix+"call_"+cleanSym(ctr.Name))
 	if ctr.Pure {
 		res = e.uninterp("pure_"+cleanSym(funcKeyStr(ctr.Pkg+"."+ctr.Name)), cc.args, cc.resT)
@@ -782,6 +795,9 @@ func (e *Exec) callByContract(cc *callCtx, fn *ssa.Function, ctr *FuncContract, 
 	for _, cl := range append(append([]Clause{}, ctr.Ensures...), ctr.Tags...) {
 		if ctr.usesInternalNames(cl.Expr) {
 			continue // clause about the function's own intermediate values: not visible to callers
+		}
+		if cl.Assumed {
+			e.assumes["assumed postcondition (not proved) of "+ctr.Pkg+"."+ctr.Name+": "+cl.Text] = true
 		}
 		t, err := e.evalBool(env2, cl.Expr)
 		if err != nil {
@@ -1198,6 +1214,42 @@ func (e *Exec) wellFormedResult(v Val) {
 	if isRefLike(v.T) {
 		if _, isSig := unalias(v.T).Underlying().(*types.Signature); !isSig {
 			e.assume(app(">=", v.Term, "0"), "")
+		}
+	}
+}
+
+// applyKeeps: `keeps call Callee: m1, m2` of the root contract — the call is ASSUMED not to write the named maps/slices of the
+// caller (an explicit aliasing/tree-shape assumption, reported in the evidence): their cells are carried across the call.
+func (e *Exec) applyKeeps(cc *callCtx, ctr *FuncContract, pre *State) {
+	if e.rootCtr == nil || cc.f != e.rootFrame || len(e.rootCtr.KeepsCalls) == 0 {
+		return
+	}
+	for _, n := range cc.names {
+		for _, ks := range e.rootCtr.KeepsCalls[n] {
+			env := e.rootEnv(cc.f, pre)
+			v, err := e.eval(env, ks.Expr)
+			if err != nil {
+				panic(fmt.Sprintf("fatal: contract of %s: keeps %s: %v", e.rootCtr.Name, ks.Text, err))
+			}
+			e.assumes["assumed (tree shape / no aliasing): a call of "+n+" in "+e.rootCtr.Name+" does not write "+ks.Text] = true
+			switch t := unalias(v.T).Underlying().(type) {
+			case *types.Map:
+				dn, ds, vn, vs := e.mapNames(t)
+				ln, ls := e.mapLenName(t)
+				for _, c := range [][2]string{{dn, ds}, {vn, vs}, {ln, ls}} {
+					if _, ok := pre.comps[c[0]]; !ok {
+						continue
+					}
+					e.assume(Eq(Select(e.comp(cc.st, c[0], c[1]), v.Term), Select(e.comp(pre, c[0], c[1]), v.Term)), "")
+				}
+			case *types.Slice:
+				an, aso := e.arrName(t.Elem())
+				if _, ok := pre.comps[an]; ok {
+					e.assume(Eq(Select(e.comp(cc.st, an, aso), app("s_base", v.Term)), Select(e.comp(pre, an, aso), app("s_base", v.Term))), "")
+				}
+			default:
+				panic(fmt.Sprintf("fatal: contract of %s: keeps %s: not a map or slice", e.rootCtr.Name, ks.Text))
+			}
 		}
 	}
 }
